@@ -36,11 +36,19 @@ let dispatch = function
   | "rfrom" ->
     let e = next_enc () in let ls = next_lines () in let s = next_pos () in let t = next_pos () in
     let ((rs, rt), (a1, a2)) = range_from_client_units e ls (s, t) in
-    put_pos rs; put_pos rt; put_pos a1; put_pos a2
+    put_pos rs; put_pos rt; put_pos a1; put_pos a2;
+    (* pointwise reference: each end is the conversion of that position (where the reference is
+       defined and no open finding covers the position) *)
+    List.iter (fun p ->
+      match spec_from e ls p with
+      | Some q when from_guard e ls p -> put_int 1; put_pos q
+      | _ -> put_int 0; put_int 0; put_int 0) [s; t]
   | "rto" ->
     let e = next_enc () in let ls = next_lines () in let s = next_pos () in let t = next_pos () in
     let ((rs, rt), (a1, a2)) = range_to_client_units e ls (s, t) in
-    put_pos rs; put_pos rt; put_pos a1; put_pos a2
+    put_pos rs; put_pos rt; put_pos a1; put_pos a2;
+    List.iter (fun p ->
+      if to_guard e ls p then (put_int 1; put_pos (spec_to e ls p)) else (put_int 0; put_int 0; put_int 0)) [s; t]
   | "offset" ->  (* e text pos -> M, S defined?, S, guard F17, guard units (F31 / F16') *)
     let e = next_enc () in let s = next_str () in let p = next_pos () in
     put_n (offset_at_position e s p);
